@@ -246,6 +246,10 @@ def validate_conf(name):
     action, enabled, with the logged post-state. A run the specification cannot follow is 'drift' (reported, not a verdict)."""
     raw = os.path.join(CACHE, "jobs", name + ".ndjson")
     runs = project.project_d(open(raw))
+    if name.endswith("_realbin"):
+        # free-running binary: one-shot runs only (real inotify delivers several notifications per edit, which the
+        # version abstraction of Engine.tla cannot be told about from outside)
+        runs = [r for r in runs if not r[0]["cfg"]["watch"]]
     res = {"name": name, "runs": 0, "lines": 0, "drift": [], "error": None}
     for watch in (False, True):
         part = [r for r in runs if bool(r[0]["cfg"]["watch"]) == watch]
@@ -355,7 +359,7 @@ def suite(tier, seed):
             vres = list(ex.map(lambda z: validate_obs(z["name"]), zres))
         log("engine suite: trace validation done in %.0fs" % (time.time() - t1))
         t1 = time.time()
-        hz = [z for z in zres if z["label"] != "realbin" and z["summary"] is not None]
+        hz = [z for z in zres if z["summary"] is not None]
         with cf.ThreadPoolExecutor(NCPU) as ex:
             cres = list(ex.map(lambda z: validate_conf(z["name"]), hz))
         log("engine suite: conformance to Engine.tla done in %.0fs" % (time.time() - t1))
